@@ -1245,6 +1245,38 @@ fn scale_script(sys: &Sys, o: &mut Outcome) -> u64 {
                 }
             }
         }
+        // names that LOOK like the compressed suffix but are not (other letter case, the suffix in
+        // the middle, a longer extension) and the bare suffix as a whole file name: compressed on
+        // write and decompressed on read exactly when the path ends in the game's suffix
+        {
+            let up = sfx.to_uppercase();
+            let cap = format!(".{}{}", sfx[1..2].to_uppercase(), &sfx[2..]);
+            let names = vec![format!("look/Data.bin{}", up), format!("look/Pack{}", cap), format!("look/x{}.bak", sfx), format!("look/{}", &sfx[1..]), format!("look/x{}x", sfx), format!("look/a{}.txt", sfx), format!("look/{}", sfx), format!("look/UP{}", sfx), "look/plain.LZ".to_string(), "look/plain.CMP".to_string(), "look/plain.Cms".to_string()];
+            let stream_like = sys.cfg.encode_stored(&[0x41; 40]);
+            for (k, p) in names.iter().enumerate() {
+                for (pk, payload) in [vec![7u8, 7, 7], stream_like.clone(), (0..300u32).map(|i| (i % 5) as u8).collect::<Vec<u8>>()].iter().enumerate() {
+                    let loc = (k + pk) % 2 == 1;
+                    let compressed = sys.cfg.is_compressed(p);
+                    match w.fs.write(p, payload, loc) {
+                        Err(e) => out.push(("scale:look-alike:write-failed".to_string(), format!("write({:?}, {} bytes, localized={}) failed: {}", p, payload.len(), loc, e))),
+                        Ok(()) => {
+                            match w.fs.read(p, loc) {
+                                Ok(b) if b == *payload => {}
+                                other => out.push(("scale:look-alike:read-after-write".to_string(), format!("read({:?}, localized={}) after writing {} bytes returned {:?} (the path {} the compressed suffix {:?})", p, loc, payload.len(), other.map(|b| b.len()).map_err(|e| e.to_string()), if compressed { "ends in" } else { "does not end in" }, sfx))),
+                            }
+                            if let Some(actual) = sys.actual(p, loc) {
+                                if let Ok(stored) = std::fs::read(w.roots[w.roots.len() - 1].join(norm(&actual))) {
+                                    let ok = if compressed { sys.cfg.decode_stored(&stored).ok().as_ref() == Some(payload) } else { stored == *payload };
+                                    if !ok {
+                                        out.push(("scale:look-alike:stored".to_string(), format!("the file stored for {:?} is {} although the path {} the compressed suffix {:?}", p, if compressed { "not a valid stream of the payload" } else { "not the payload byte for byte" }, if compressed { "ends in" } else { "does not end in" }, sfx)));
+                                    }
+                                }
+                            }
+                        }
+                    }
+                }
+            }
+        }
         // many distinct paths through ONE filesystem instance (a per-instance memo of paths
         // must not recycle entries wrongly): write all, then revisit all, then overwrite the first
         let many = 1500usize;
